@@ -10,6 +10,7 @@ import (
 	"runtime"
 	"strings"
 	"sync"
+	"syscall"
 	"time"
 
 	"github.com/crate-crypto/go-ipa/bandersnatch"
@@ -366,8 +367,7 @@ func timed(r *core.Result, check, api, input string, f func()) (ok bool) {
 		}()
 		f()
 	}()
-	select {
-	case x := <-done:
+	finish := func(x res) bool {
 		if x.e != nil {
 			if msg := fmt.Sprint(x.e); strings.HasPrefix(msg, "verif: seam unavailable") {
 				seamUnavailable(r, msg)
@@ -377,11 +377,40 @@ func timed(r *core.Result, check, api, input string, f func()) (ok bool) {
 			return false
 		}
 		return true
-	case <-time.After(callLimit):
-		hangs++
-		vio(r, strings.Split(check, ".")[0]+".termination", api, input, fmt.Sprintf("the call returns (it normally takes well under a second; limit %s)", callLimit), "still running: the call blocks forever")
-		return false
 	}
+	select {
+	case x := <-done:
+		return finish(x)
+	case <-time.After(callLimit):
+	}
+	// Past the limit. A call that blocks forever consumes no processor time; a call that is merely slow because
+	// the machine is overcommitted keeps consuming it. Only the first is reported as non-termination here: as
+	// long as this process keeps burning CPU the wait goes on (up to 10 limits), in 15-second windows.
+	for waited := callLimit; waited < 10*callLimit; waited += 15 * time.Second {
+		c0 := processCPU()
+		select {
+		case x := <-done:
+			return finish(x)
+		case <-time.After(15 * time.Second):
+		}
+		if processCPU()-c0 < 300*time.Millisecond {
+			hangs++
+			vio(r, strings.Split(check, ".")[0]+".termination", api, input, fmt.Sprintf("the call returns (it normally takes well under a second; limit %s)", callLimit), fmt.Sprintf("still running after %s and the process is idle: the call blocks forever", waited+15*time.Second))
+			return false
+		}
+	}
+	hangs++
+	vio(r, strings.Split(check, ".")[0]+".termination", api, input, fmt.Sprintf("the call returns (it normally takes well under a second; limit %s)", callLimit), fmt.Sprintf("still running (and consuming processor time) after %s", 10*callLimit))
+	return false
+}
+
+// processCPU: user+system time consumed by this process so far.
+func processCPU() time.Duration {
+	var ru syscall.Rusage
+	if err := syscall.Getrusage(syscall.RUSAGE_SELF, &ru); err != nil {
+		return 0
+	}
+	return time.Duration(ru.Utime.Nano() + ru.Stime.Nano())
 }
 
 // edgePolys: polynomials whose evaluations sit at the 64-bit limb boundaries and at the half-range of the top
